@@ -117,7 +117,7 @@ def shrink_spec_cfg(cfg):
         c = copy.deepcopy(cfg); c["config"][1] = mc - 1; yield c
     if mt > 0:
         c = copy.deepcopy(cfg); c["config"][2] = mt - 1; yield c
-    for k, v in (("feeder_delay", False), ("pipe_cap", None), ("p_stay", 0.9), ("opcode_plan", None)):
+    for k, v in (("feeder_delay", False), ("pipe_cap", None), ("p_stay", 0.9), ("opcode_plan", None), ("opcode_dense", None)):
         if cfg["knobs"].get(k) != v:
             c = copy.deepcopy(cfg); c["knobs"][k] = v; yield c
     if spec.get("quiet") is False:
